@@ -203,6 +203,30 @@ pub fn run_prop(ctx: &Ctx, sink: &mut Sink) {
             let imp = if o.code == Some(0) { bits(&selected(&o.out, n_files)) } else { format!("status-{}", o.status()) };
             sink.push(Case { req: format!("newer-e2e {sp} {x} {y} {ra}:{rc}:{rm} {}", es.join(",")), imp, tags: vec!["newer", "nt"] });
         }
+        // the reference is a symbolic link with timestamps of its own: F is the link itself unless the follow
+        // mode says otherwise (-P: lstat, as -newer does; -L / -H: the file it resolves to)
+        {
+            let lnk = top.join("lref");
+            std::os::unix::fs::symlink("ref", &lnk).unwrap();
+            let l_a: i128 = ref_m + 7 * NS;   // the link's access time is the target's modification time plus 7 s, and
+            let l_m: i128 = ref_a - 3 * NS;   // its modification time lies before the target's access time
+            let c = std::ffi::CString::new(lnk.to_str().unwrap()).unwrap();
+            let ts = [
+                libc::timespec { tv_sec: (l_a.div_euclid(NS)) as i64, tv_nsec: (l_a.rem_euclid(NS)) as i64 },
+                libc::timespec { tv_sec: (l_m.div_euclid(NS)) as i64, tv_nsec: (l_m.rem_euclid(NS)) as i64 },
+            ];
+            assert_eq!(unsafe { libc::utimensat(libc::AT_FDCWD, c.as_ptr(), ts.as_ptr(), libc::AT_SYMLINK_NOFOLLOW) }, 0, "utimensat link");
+            let (la, lc, lm) = times_of(&lnk);
+            for flag in ["-P", "-L", "-H"] {
+                let (fa, fc, fm) = if flag == "-P" { (la, lc, lm) } else { (ra, rc, rm) };
+                for (sp, x, y) in [("-newer", "m", "m"), ("-newermm", "m", "m"), ("-anewer", "a", "m"), ("-neweram", "a", "m"), ("-cnewer", "c", "m"), ("-newerma", "m", "a"), ("-neweraa", "a", "a")] {
+                    let args: Vec<String> = vec![flag.into(), dir.to_str().unwrap().into(), "-name".into(), "f*".into(), sp.into(), lnk.to_str().unwrap().into(), "-print0".into()];
+                    let o = find_inproc(&errf, &args, SystemTime::now(), None);
+                    let imp = if o.code == Some(0) { bits(&selected(&o.out, n_files)) } else { format!("status-{}", o.status()) };
+                    sink.push(Case { req: format!("newer-e2e {sp} {x} {y} {fa}:{fc}:{fm} {}", es.join(",")), imp, tags: vec!["newer", "link-reference", "nt"] });
+                }
+            }
+        }
         // the reference file is itself one of the entries the walk visits, under the very spelling given to the
         // test: for X != Y it is selected iff its own X timestamp is later than its own Y timestamp
         for idx in [0usize, n_files / 2, n_files - 1] {
